@@ -4,9 +4,13 @@ PROP = dict(
     technique="fault-injection PBT: every committed write k of a generated operation script is turned into a crash point and into a failing commit; differential against fault-free reference nodes",
     level_text=("Fault enumeration per generated case: all commit indices (thorough) or a drawn subset (quick) x {crash image reopened by a fresh "
                 "Blockchain, injected commit error with the same object continuing}. Juno's grouping of effects into commits is what is enumerated; "
-                "the storage engine's own atomicity is trusted. Prune interruption points are enumerated by C16."),
+                "the storage engine's own atomicity is trusted. TestPropPruneInterrupted enumerates the committed writes of PruneUpto the same way "
+                "(crash image, failing write through the function, failing write under the real pruner service that shares its in-memory "
+                "retention floor with the Blockchain); the pruning policy itself is C16's."),
     rule=("scripts of 4-10 ops over store/revert/set-L1-head/persist-snapshot/graceful/ungraceful restart on both state backends, 12% on the 8188-block base "
-          "(real window rollover); non-trivial = fault inside a store or revert; distinct = SHA-256 of the op list (block hashes included)."),
-    assumptions=["memory backend image = crash image (Pebble batch atomicity / WAL trusted)", "pruning is exercised in C16, not here"],
+          "(real window rollover); non-trivial = fault inside a store or revert; distinct = SHA-256 of the op list (block hashes included). "
+          "Prune test: chains of 22-40 blocks, optional earlier prune, 1-byte or default batches, fault at every (quick: 4 drawn) committed write; "
+          "non-trivial = fault strictly inside the prune."),
+    assumptions=["memory backend image = crash image (Pebble batch atomicity / WAL trusted)", "pruning policy (which floor is chosen) is exercised in C16, not here"],
     runs=[dict(run="^Test(Prop|Known)")],
 )
